@@ -804,10 +804,6 @@ _build_canon()
 
 
 # ====================================================================================================== observation
-def _enc(v):
-    return codec.enc(v)
-
-
 def write_book(path, formula, extra=None, at=FORMULA_AT, sheet=0):
     sheets = [{'title': TITLES[0], 'cells': [list(c) for c in FIX_S]}, {'title': TITLES[1], 'cells': [list(c) for c in FIX_T]}]
     sheets[sheet]['cells'].append([at[0], at[1], formula])
@@ -959,17 +955,17 @@ def root_tag(text):
     m = mask_texts(text)
     if re.search(r'%[ \t\n]*["(\d.A-Za-z$\']', m):
         return 'grammar.percent_as_binary_operator'
+    if re.search(r"(?<![A-Za-z0-9_$.'])!", m):
+        return 'lexer.empty_sheet_prefix'
+    for w in re.findall(r'(?<![A-Za-z0-9_.])\$?([A-Z]+)\$?\d+', m):
+        if col_num(w) > 16384:
+            return 'lexer.column_beyond_XFD'
     if swallow_feature(text):
         return 'lexer.wildcard_after_quoted_text'
     for pre in re.finditer(r"'[^']*'!", text):
         if not re.match(r"\$?[A-Z]+\$?\d*:\$?[A-Z]+", text[pre.end():]) and \
                 re.search(r"'[^']*'!\$?[A-Z]+\$?\d*:", text[pre.end():]):
             return 'lexer.quoted_sheet_prefix_span'
-    if re.search(r"(?<![A-Za-z0-9_$.'])!", m):
-        return 'lexer.empty_sheet_prefix'
-    for w in re.findall(r'(?<![A-Za-z0-9_.])\$?([A-Z]+)\$?\d+', m):
-        if col_num(w) > 16384:
-            return 'lexer.column_beyond_XFD'
     return None
 
 
@@ -1004,22 +1000,12 @@ def judge(formula, out, ref=None):
 
 
 # ---- worker side
-_TMP = None
+_TMP = None           # scratch directory of the running check: made by _pool_map with lib.scratch(), inherited by the forked workers
 
 
 def _tmp():
-    global _TMP
-    if _TMP is None or not os.path.isdir(_TMP):
-        import atexit
-        import shutil
-        import tempfile
-        _TMP = tempfile.mkdtemp(prefix='pvnat_c05_')
-        atexit.register(shutil.rmtree, _TMP, True)
+    assert _TMP is not None and os.path.isdir(_TMP)
     return _TMP
-
-
-def _jsonable_out(out):
-    return [out[0], codec.enc(out[1]) if out[0] == 'value' else out[1]]
 
 
 def _w_single(job):
@@ -1066,13 +1052,19 @@ def _w_variants(job):
 
 
 def _pool_map(fn, jobs, procs=16, chunk=None):
+    global _TMP
     if not jobs:
         return []
-    if len(jobs) < 40:
-        return [fn(j) for j in jobs]
-    ctx = multiprocessing.get_context('fork')
-    with ctx.Pool(procs) as pool:
-        return pool.map(fn, jobs, chunksize=chunk or max(1, min(64, len(jobs) // (procs * 4))))
+    with lib.scratch() as d:
+        _TMP = d
+        try:
+            if len(jobs) < 40:
+                return [fn(j) for j in jobs]
+            ctx = multiprocessing.get_context('fork')
+            with ctx.Pool(procs) as pool:
+                return pool.map(fn, jobs, chunksize=chunk or max(1, min(64, len(jobs) // (procs * 4))))
+        finally:
+            _TMP = None
 
 
 def _dedupe(fails, limit=25):
@@ -1200,7 +1192,8 @@ def mutation_jobs(tier, rng):
             jobs.append((f, mode, False))
     thorough = tier == 'thorough'
     pair_alpha = APPEND2 if thorough else [')', '+', ',', '%', '1', 'A1']
-    ins_alpha = APPEND1 if thorough else [')', '(', '+', ',', '1']
+    spaced = (')', '(', '+', ',', '%', '%%', '=', '1', '"x"', 'A1', 'A1:B2', 'TRUE', 'SUM(1)', '(1)')
+    ins_alpha = APPEND1 if thorough else [')', '(', '+', ',', '1', '!']
     for b in BASES:
         add(b)
         add(b, 'entry')
@@ -1208,7 +1201,8 @@ def mutation_jobs(tier, rng):
         # exactly one trailing token (glued and after a blank), then two
         for a in APPEND1:
             add(b + a)
-            add(b + ' ' + a)
+            if thorough or a in spaced:
+                add(b + ' ' + a)
         for a1 in pair_alpha:
             for a2 in pair_alpha:
                 add(b + a1 + a2)
@@ -1261,10 +1255,10 @@ def check_mutations(tier, rng):
     st = _stats(res)
     return {'name': 'C05.monitor.token_mutations',
             'bound': f'{len(BASES)} well-formed base formulas (every token kind, {len(SPEC)}-function grammar, nested calls, % and signs, '
-                     f'sheet prefixes, texts containing separators and doubled quotes) x [one trailing token from {len(APPEND1)} glued / after a blank; '
+                     f'sheet prefixes, texts containing separators and doubled quotes) x [one trailing token from {len(APPEND1)} glued' + (' / ' if tier == 'thorough' else ', 14 of them also ') + 'after a blank; '
                      f'two trailing tokens from {14 if tier == "thorough" else 6}^2' + (', three from 6^3' if tier == 'thorough' else '') +
                      '; every single deletion, duplication, adjacent swap, proper prefix; every single insertion of one of '
-                     f'{len(APPEND1) if tier == "thorough" else 5} tokens at every position] + {20000 if tier == "thorough" else 1000} seeded 1..4-step mutations',
+                     f'{len(APPEND1) if tier == "thorough" else 6} tokens at every position] + {20000 if tier == "thorough" else 1000} seeded 1..4-step mutations',
             'rule': 'one evaluation = one distinct cell text; the reference lexer/parser reads the COMPLETE text: not a formula -> must raise '
                     'E2PyclParserException; formula -> exception or the value of the complete text (value clause only where the reference '
                     'evaluator defines it and precedence is not involved).  classes: ' + ', '.join(f'{k}:{v}' for k, v in sorted(st.items())),
@@ -1413,14 +1407,6 @@ def check_separators(tier, rng):
 DEEP_LIMIT = 5.0    # nest 3 / brackets 8 need ~0.3 s, nest 5 ~30 s, brackets 16 ~70 s: the sizes used stay clear of the limit
 MALFORMED = ['=1 2', '=1+', '=1+2)', '=(1+2', '=SUM(1,2) 4', '=A1 B1', '=IF(A1>0,1,2,4)', '=1,', '=1%%', '=SUM(1,2)+', '="a" "b"',
              '=DAY(D1,2)', '=TODAY(1)', '=1**2']
-
-
-def _translate_book(build, entry=None, safety=False, parser=None):
-    """build(path) writes the workbook; returns translation text or Raised"""
-    with lib.scratch() as d:
-        path = os.path.join(d, 'wb.xlsx')
-        build(path)
-        return lib.translate(path, entry=entry, safety=safety)
 
 
 def _ctx_case(case):
